@@ -48,6 +48,12 @@ def pupilMultiplyW [Zero K] [Mul K] (phOf : M → R → K) (p : PlaneM K R) (ppx
     Except String (Wf K M) :=
   (planeMultiplyW phOf p ppx w).map fun w' => Wf.ofHandover (Gen.pupilMultiplyHandover w'.handover fl) w'.data
 
+/-- `Image.multiply(wavefront)`: as `Plane.multiply`, then the generated `Gen.imageMultiplyHandover` (only the plane type is
+set; plane types themselves are C08's and are not carried by `Wf`) -/
+def imageMultiplyW [Zero K] [Mul K] (phOf : M → R → K) (p : PlaneM K R) (ppx : Option (Int × Int)) (w : Wf K M) :
+    Except String (Wf K M) :=
+  (planeMultiplyW phOf p ppx w).map fun w' => Wf.ofHandover (Gen.imageMultiplyHandover w'.handover ()) w'.data
+
 /-- `Wavefront(wavelength, ...)`: one one-element field of value 1 at offset (0, 0), shape `()` -/
 def Wf.init [Zero K] (one : K) (wavelength focal : M) (px : Option (Int × Int)) : Wf K M :=
   { wavelength := wavelength, focal := focal, pixelscale := px, shape := none,
